@@ -457,7 +457,7 @@ Proof. exact partition_fill_level0_linked. Qed.
 Print Assumptions C01_partition_fill_linked.
 
 From T4V Require C13.LinkC01Orig.
-From T4V Require Import C01.PrinterC C01.LinkFill2 C01.LinkC11C05.
+From T4V Require Import C01.PrinterC C01.LinkFill2 C01.LinkNode C01.LinkC11C05.
 
 (* the FILL theorem SHARPENED (round 4), about the printed lines WITH their
    `// idorigin` comment read back (PrinterC.v):
@@ -513,8 +513,6 @@ Theorem C01_partition_fill_written_linked :
   (forall c cl, C05.Model.dget c (C05.Model.s_cells s0) = Some cl -> C05.Model.c_univ cl = 0 ->
      c <> key -> val c = false) ->
   ~ In key todo ->
-  (forall k ncl, In k ks -> C05.Model.dget k cells3 = Some ncl ->
-     is_node (trF (C05.Model.c_geom ncl)) = true) ->
   exists k, In k ks /\
     C05.Spec.RepresentsW T surf P tr_empty inv sense s0 du s3 key k ch /\
     (In k todo <-> C05.Model.c_imp kcl <> 0) /\
@@ -523,7 +521,7 @@ Theorem C01_partition_fill_written_linked :
          (forall j, in_volume sigma Tb j <-> j = k) /\
          exists v, lookup k Tb = Some v /\ v_fict v = false /\ v_orig v = C05.Spec.prov ch) /\
       (C05.Model.c_imp kcl = 0 -> forall j, ~ in_volume sigma Tb j).
-Proof. exact partition_fill_written_linked. Qed.
+Proof. exact partition_fill_written_linked2. Qed.
 Print Assumptions C01_partition_fill_written_linked.
 
 (* COMPOSING the C11 link and the C05 link: C05's parsed deck s0 is built from
